@@ -16,6 +16,7 @@ import numpy as onp
 
 import autograd.numpy as anp
 from autograd import make_vjp, make_jvp, jacobian
+import autograd.numpy as np
 from autograd.core import SparseObject, vspace
 from autograd.extend import primitive, defvjp, defvjp_argnum, defvjp_argnums, defjvp, defjvp_argnum, defjvp_argnums
 
@@ -259,6 +260,32 @@ class Run:
             out["jvp"], out["jvp2"], out["fwd_intact"] = -1, -1, False
             out["fevents"] = list(self.fevents)
             out["fwd_error"] = type(ex).__name__ + ": " + str(ex)[:200]
+        # second order on the same graph (built-in operators only): z = sum(F(x)**2) with F = ps * x, so the Hessian is 2 ps^2 I and every
+        # Hessian-vector product is 2 ps^2 v, whatever the order of the two differentiations.  The inner backward pass then runs on
+        # cotangents that are traced values of the outer differentiation (the accumulation protocol itself is being differentiated).
+        out["hvp"] = []
+        ps = self.case.get("ps")
+        if ps is not None and abs(ps) < 2 ** 13 and self.case["id"] % 2 == 0:
+            try:
+                from autograd import grad
+                vv = onp.array([1.0, 2.0])
+
+                def F2(z):
+                    vals = {1: z}
+                    for k in range(2, self.n + 1):
+                        a = [vals[s["p"]] if s["p"] > 0 else self.const(k, j + 1) for j, s in enumerate(self.args[k - 1])]
+                        vals[k] = self.builtin_node(k, a)
+                    return np.sum(vals[self.n] ** 2)
+                g1 = grad(F2)
+                rr = onp.asarray(grad(lambda z: np.sum(g1(z) * vv))(x))
+                fr = onp.asarray(make_jvp(g1)(x)(vv)[1])
+                rf = onp.asarray(grad(lambda z: make_jvp(F2)(z)(vv)[1])(x))
+                # ... and the first-order gradient as computed WHILE an outer differentiation is tracing it: 2 ps^2 x with x = (1, 2)
+                gt = onp.asarray(make_vjp(g1)(x)[1])
+                out["hvp"] = [to_int(rr[0]), to_int(rr[1]), to_int(fr[0]), to_int(fr[1]), to_int(rf[0]), to_int(rf[1]), to_int(gt[0]), to_int(gt[1])]
+            except Exception as ex:     # noqa
+                out["hvp"] = [-1, -1, -1, -1, -1, -1, -1, -1]
+                out["hvp_error"] = type(ex).__name__ + ": " + str(ex)[:200]
         # one closure mapped over a whole basis (differential_operators.jacobian)
         if self.case.get("jac"):
             try:
